@@ -31,6 +31,37 @@ type latestSel struct {
 	line   int
 	lo, hi int
 	dyn    bool
+	dates  []datePred // `[q.]insertion_date|effective_date <=|< X` predicates of the scope
+}
+
+type datePred struct {
+	col string
+	rhs string
+}
+
+// datePredicates: the instant cut-offs in a token range.
+func datePredicates(toks []sqlTok, lo, hi int) []datePred {
+	var out []datePred
+	for k := lo; k+1 < hi; k++ {
+		t := toks[k]
+		if t.Kind != 'w' || (t.Text != "insertion_date" && t.Text != "effective_date") {
+			continue
+		}
+		j := k + 1
+		if j >= hi || (toks[j].Text != "<=" && toks[j].Text != "<") {
+			continue
+		}
+		j++
+		if j < hi && toks[j].Text == "=" {
+			j++
+		}
+		rhs := ""
+		if j < hi {
+			rhs = toks[j].Text
+		}
+		out = append(out, datePred{t.Text, rhs})
+	}
+	return out
 }
 
 func splitOrderKeys(s string) []string {
@@ -126,6 +157,7 @@ func latestSelections(toks []sqlTok) []latestSel {
 			nDistinct = len(keys)
 		}
 		sel := latestSel{keys: keys[nDistinct:], own: map[string]bool{}, line: toks[i].Line, lo: lo, hi: hi, dyn: dyn}
+		sel.dates = datePredicates(toks, fromIdx, i)
 		for k := lo; k < fromIdx; k++ {
 			if toks[k].Kind == 'w' && (toks[k].Text == colVolumes || toks[k].Text == colEffVolumes) {
 				sel.own[toks[k].Text] = true
@@ -279,6 +311,7 @@ func ruleR04d(c *Ctx) {
 		}
 	}
 	nSel := 0
+	var inert func(dp datePred) bool
 	decide := func(key string, pos string, sel latestSel, unitCols map[string]bool, where string) {
 		n0 := len(c.Obls)
 		defer func() {
@@ -307,6 +340,17 @@ func ruleR04d(c *Ctx) {
 			c.undecided(rule, key, token.NoPos, "the rows picked here feed both running totals ("+strings.Join(names, ", ")+"): one ordering cannot serve both")
 		case want[names[0]] == kind:
 			c.ok(rule, key, token.NoPos, fmt.Sprintf("%s is read from the latest row by [%s], the ordering the writer maintains it in", names[0], strings.Join(sel.keys, ", ")))
+			// the instant the rows are cut at must be the instant of that ordering
+			wantDate := map[string]string{"insertion": "insertion_date", "effective": "effective_date"}[kind]
+			for _, dp := range sel.dates {
+				if inert != nil && inert(dp) {
+					c.Info["inert_cutoff:"+key] = dp.col + " <= " + dp.rhs + ": the parameter is never supplied by a caller, the predicate is constant true"
+					continue
+				}
+				c.check(dp.col == wantDate, rule, key+":cut-off-on-"+wantDate, token.NoPos,
+					"the rows are cut at an instant on "+wantDate+", the instant of the ordering the running total follows",
+					fmt.Sprintf("%s cuts the moves at an instant on %s but reads %s from the latest row in %s order: the row picked carries the total of every move inserted before it, including those outside the cut (and misses later-inserted ones inside it) — balances as of a past instant are not the replay of the log up to that instant", where, dp.col, names[0], kind))
+			}
 		default:
 			c.bad(rule, key, token.NoPos, fmt.Sprintf("%s reads %s from the row picked by `order by %s`, but that column is a running total in %s order (the writer continues it from `%s`): whenever effective dates and insertion order disagree (back-dated or future-dated transactions) the row picked misses moves, the reported volumes and balances are not the replay of the log and inputs no longer equal outputs",
 				where, names[0], strings.Join(sel.keys, ", "), want[names[0]], map[string]string{"insertion": "order by seq desc", "effective": "order by effective_date desc, seq desc"}[want[names[0]]]))
@@ -323,9 +367,19 @@ func ruleR04d(c *Ctx) {
 			continue
 		}
 		unit := columnsOutside(f.Body, sels)
+		ff := f
+		inert = func(dp datePred) bool {
+			for idx, prm := range ff.Params {
+				if prm == dp.rhs {
+					return !sqlParamSupplied(schema, goTexts, referenced, ff, idx)
+				}
+			}
+			return false
+		}
 		for i, s := range sels {
 			decide(fmt.Sprintf("sql:%s:latest-move#%d", f.Name, i+1), fmt.Sprintf("%s:%d", migrationSQL, s.line), s, unit, "SQL function "+f.Name)
 		}
+		inert = nil
 	}
 	// ---- SQL texts built in Go
 	type fragKey struct {
@@ -424,6 +478,13 @@ func ruleR04d(c *Ctx) {
 				nDistinct = len(keys)
 			}
 			sel := latestSel{keys: keys[nDistinct:], own: own, dyn: dyn}
+			for _, w := range dedupStrings(f.wheres) {
+				wt := sqlTokenize(w, 0)
+				sel.dates = append(sel.dates, datePredicates(wt, 0, len(wt))...)
+				if strings.Contains(w, dynMark+" <") {
+					sel.dates = append(sel.dates, datePred{dynMark, ""})
+				}
+			}
 			// the unit of a chain that selects whole rows: every SQL text of the enclosing top-level function
 			unit := map[string]bool{}
 			top := fn
@@ -467,4 +528,61 @@ func ruleR04d(c *Ctx) {
 
 func isIdentByte(b byte) bool {
 	return b == '_' || (b >= 'a' && b <= 'z') || (b >= 'A' && b <= 'Z') || (b >= '0' && b <= '9')
+}
+
+// sqlParamSupplied: does any caller (Go text or referenced SQL function) give a value to parameter idx of f,
+// positionally or by name?
+func sqlParamSupplied(schema *sqlSchema, goTexts []string, referenced map[string]bool, f *sqlFunc, idx int) bool {
+	supplied := false
+	scan := func(toks []sqlTok) {
+		for i := 0; i+1 < len(toks); i++ {
+			if toks[i].Kind != 'w' || toks[i].Text != f.Name || toks[i+1].Text != "(" {
+				continue
+			}
+			if i > 0 && toks[i-1].Text == "function" {
+				continue
+			}
+			d := toks[i+1].Depth
+			n := 0
+			seenTok := false
+			for k := i + 2; k < len(toks) && !(toks[k].Text == ")" && toks[k].Depth == d); k++ {
+				seenTok = true
+				if toks[k].Text == "," && toks[k].Depth == d+1 {
+					n++
+				}
+				if toks[k].Kind == 'w' && toks[k].Text == f.Params[idx] && k+2 < len(toks) && toks[k+1].Text == ":" && toks[k+2].Text == "=" {
+					supplied = true
+				}
+				if toks[k].Kind == 'w' && toks[k].Text == f.Params[idx] && k+1 < len(toks) && (toks[k+1].Text == ":=" || toks[k+1].Text == "=>") {
+					supplied = true
+				}
+			}
+			if seenTok {
+				n++
+			}
+			if n > idx {
+				// positional, unless the later arguments are named ones (then they were seen above)
+				named := false
+				for k := i + 2; k < len(toks) && !(toks[k].Text == ")" && toks[k].Depth == d); k++ {
+					if toks[k].Text == ":=" || toks[k].Text == "=>" || (toks[k].Text == ":" && k+1 < len(toks) && toks[k+1].Text == "=") {
+						named = true
+					}
+				}
+				if !named {
+					supplied = true
+				}
+			}
+		}
+	}
+	for _, t := range goTexts {
+		if strings.Contains(t, f.Name) {
+			scan(sqlTokenize(t, 0))
+		}
+	}
+	for _, g := range schema.Funcs {
+		if referenced[g.Name] && g != f {
+			scan(g.Body)
+		}
+	}
+	return supplied
 }
